@@ -101,7 +101,7 @@ def apply_layout(a, kind, fill=None):
     if kind == "C":
         return a.copy()
     if kind == "F":
-        return np.asfortranarray(a)
+        return np.array(a, order="F", copy=True)      # always a fresh buffer (asfortranarray aliases degenerate shapes)
     if kind == "strided":
         big = np.zeros(tuple(2 * d for d in a.shape), a.dtype)
         if fill is not None:
@@ -111,7 +111,7 @@ def apply_layout(a, kind, fill=None):
         return v
     if kind == "negstride":
         rev = tuple(slice(None, None, -1) for _ in a.shape)
-        back = np.ascontiguousarray(a[rev])
+        back = np.array(a[rev], order="C", copy=True)
         return back[rev]
     if kind == "offset":
         big = np.zeros(tuple(d + 3 for d in a.shape), a.dtype)
@@ -121,7 +121,7 @@ def apply_layout(a, kind, fill=None):
         v[...] = a
         return v
     if kind == "transposed":
-        t = np.ascontiguousarray(a.T)
+        t = np.array(a.T, order="C", copy=True)       # (n,1).T is already contiguous: ascontiguousarray would alias `a`
         return t.T
     if kind == "readonly":
         c = a.copy()
@@ -434,7 +434,11 @@ def thorough_coqchk(tier, pid, coq, ctx):
     if tier != "thorough" or not coq["ok"] or os.environ.get("VERIF_NO_COQCHK"):
         return None
     t0 = time.time()
-    p = subprocess.run(["timeout", "900", "coqchk", "-silent", "-o", "-Q", COQ, "MV", "MV.Properties." + pid],
+    admit = []
+    for m in getattr(ctx, "coqchk_admit", None) or []:
+        admit += ["-admit", m]
+    ctx.stats["coqchk_admitted_libraries"] = getattr(ctx, "coqchk_admit", None) or []
+    p = subprocess.run(["timeout", "1500", "coqchk", "-silent", "-o"] + admit + ["-Q", COQ, "MV", "MV.Properties." + pid],
                        stdout=subprocess.PIPE, stderr=subprocess.STDOUT, text=True, cwd=COQ)
     ctx.stats["coqchk_s"] = round(time.time() - t0, 1)
     ctx.stats["coqchk_tail"] = p.stdout[-1500:]
